@@ -671,4 +671,15 @@ class Stmts:
         raise OutOfSubset(f'operator method {name}', node)
 
     def star_display(self, node, st, is_list):
-        raise OutOfSubset('starred display', node)
+        """(*a, b, *c): concatenation of statically known tuples."""
+        def k(vs, s):
+            items = []
+            for e, v in zip(node.elts, vs):
+                if isinstance(e, ast.Starred):
+                    if not isinstance(v, VTuple):
+                        raise OutOfSubset('starred display of a symbolic sequence', node)
+                    items.extend(v.items)
+                else:
+                    items.append(v)
+            return [(VTuple(tuple(items), is_list), s)]
+        return self.bind(self.evs([e.value if isinstance(e, ast.Starred) else e for e in node.elts], st), k)
